@@ -331,3 +331,106 @@ pub async fn connect_pair(
         (x, y) => Err(format!("lib-to-lib handshake failed: {x:?} / {y:?}")),
     }
 }
+
+// ------------------------------------------------- real-transport operations
+
+impl Sock {
+    pub async fn bind(&mut self, ep: &str) -> Result<String, String> {
+        let r = match self {
+            Sock::Pub(s) => s.bind(ep).await,
+            Sock::Sub(s) => s.bind(ep).await,
+            Sock::Req(s) => s.bind(ep).await,
+            Sock::Rep(s) => s.bind(ep).await,
+            Sock::Dealer(s) => s.bind(ep).await,
+            Sock::Router(s) => s.bind(ep).await,
+            Sock::Pull(s) => s.bind(ep).await,
+            Sock::Push(s) => s.bind(ep).await,
+            Sock::XPub(s) => s.bind(ep).await,
+        };
+        r.map(|e| e.to_string()).map_err(|e| e.to_string())
+    }
+
+    pub async fn connect(&mut self, ep: &str) -> Result<(), String> {
+        let r = match self {
+            Sock::Pub(s) => s.connect(ep).await,
+            Sock::Sub(s) => s.connect(ep).await,
+            Sock::Req(s) => s.connect(ep).await,
+            Sock::Rep(s) => s.connect(ep).await,
+            Sock::Dealer(s) => s.connect(ep).await,
+            Sock::Router(s) => s.connect(ep).await,
+            Sock::Pull(s) => s.connect(ep).await,
+            Sock::Push(s) => s.connect(ep).await,
+            Sock::XPub(s) => s.connect(ep).await,
+        };
+        r.map_err(|e| e.to_string())
+    }
+
+    /// unbind by the text form of an endpoint; Err(text) carries the error
+    pub async fn unbind(&mut self, ep: &str) -> Result<(), String> {
+        let e: zeromq::Endpoint = match ep.parse::<zeromq::Endpoint>() {
+            Ok(e) => e,
+            Err(_) => return Err(format!("unparsable endpoint {ep}")),
+        };
+        let r = match self {
+            Sock::Pub(s) => s.unbind(e).await,
+            Sock::Sub(s) => s.unbind(e).await,
+            Sock::Req(s) => s.unbind(e).await,
+            Sock::Rep(s) => s.unbind(e).await,
+            Sock::Dealer(s) => s.unbind(e).await,
+            Sock::Router(s) => s.unbind(e).await,
+            Sock::Pull(s) => s.unbind(e).await,
+            Sock::Push(s) => s.unbind(e).await,
+            Sock::XPub(s) => s.unbind(e).await,
+        };
+        r.map_err(|e| match e {
+            ZmqError::NoSuchBind(_) => format!("NoSuchBind: {e}"),
+            other => other.to_string(),
+        })
+    }
+
+    pub fn binds(&mut self) -> Vec<String> {
+        let m = match self {
+            Sock::Pub(s) => s.binds(),
+            Sock::Sub(s) => s.binds(),
+            Sock::Req(s) => s.binds(),
+            Sock::Rep(s) => s.binds(),
+            Sock::Dealer(s) => s.binds(),
+            Sock::Router(s) => s.binds(),
+            Sock::Pull(s) => s.binds(),
+            Sock::Push(s) => s.binds(),
+            Sock::XPub(s) => s.binds(),
+        };
+        let mut v: Vec<String> = m.keys().map(|e| e.to_string()).collect();
+        v.sort();
+        v
+    }
+
+    pub async fn close(self) -> Vec<String> {
+        let errs = match self {
+            Sock::Pub(s) => s.close().await,
+            Sock::Sub(s) => s.close().await,
+            Sock::Req(s) => s.close().await,
+            Sock::Rep(s) => s.close().await,
+            Sock::Dealer(s) => s.close().await,
+            Sock::Router(s) => s.close().await,
+            Sock::Pull(s) => s.close().await,
+            Sock::Push(s) => s.close().await,
+            Sock::XPub(s) => s.close().await,
+        };
+        errs.into_iter().map(|e| e.to_string()).collect()
+    }
+
+    pub fn monitor(&mut self) -> futures::channel::mpsc::Receiver<zeromq::SocketEvent> {
+        match self {
+            Sock::Pub(s) => s.monitor(),
+            Sock::Sub(s) => s.monitor(),
+            Sock::Req(s) => s.monitor(),
+            Sock::Rep(s) => s.monitor(),
+            Sock::Dealer(s) => s.monitor(),
+            Sock::Router(s) => s.monitor(),
+            Sock::Pull(s) => s.monitor(),
+            Sock::Push(s) => s.monitor(),
+            Sock::XPub(s) => s.monitor(),
+        }
+    }
+}
